@@ -151,14 +151,19 @@ macro_rules! entity_reactor
 entity_reactor!(E1, 3, EntityMutationTrigger<CA>);
 entity_reactor!(E2, 4, (EntityMutationTrigger<CA>, EntityEventTrigger<Pay<0>>));
 entity_reactor!(E3, 5, (EntityRemovalTrigger<CA>, EntityEventTrigger<Pay<0>>));
+entity_reactor!(E4, 6, (EntityInsertionTrigger<CA>, EntityRemovalTrigger<CA>));
+
+/// Number of entity world reactors.
+const NE: usize = 4;
 
 fn e_keys(k: u8, e: u8) -> Vec<Key>
 {
-    match k % 3
+    match k as usize % NE
     {
         0 => vec![Key::EntityMutation(e, 0)],
         1 => vec![Key::EntityMutation(e, 0), Key::EntityEvent(e, 0)],
-        _ => vec![Key::EntityRemoval(e, 0), Key::EntityEvent(e, 0)],
+        2 => vec![Key::EntityRemoval(e, 0), Key::EntityEvent(e, 0)],
+        _ => vec![Key::EntityInsertion(e, 0), Key::EntityRemoval(e, 0)],
     }
 }
 
@@ -191,6 +196,7 @@ fn op_sys(
     e1: EntityReactor<E1>,
     e2: EntityReactor<E2>,
     e3: EntityReactor<E3>,
+    e4: EntityReactor<E4>,
     mut rm: ReactiveMut<CA>,
 ) -> Option<bool>
 {
@@ -210,22 +216,26 @@ fn op_sys(
         WOp::EAdd(k, e, tag) =>
         {
             let ent = pool_entity(e);
-            match k % 3
+            match k as usize % NE
             {
                 0 => { ret = Some(e1.add(&mut c, ent, (tag, 0))); }
                 1 => { ret = Some(e2.add(&mut c, ent, (tag, 0))); }
-                _ => { ret = Some(e3.add(&mut c, ent, (tag, 0))); }
+                2 => { ret = Some(e3.add(&mut c, ent, (tag, 0))); }
+                // the EntityCommands entry point (it has no return value; it panics on a missing entity, so it is
+                // only used for live ones)
+                _ => { if c.get_entity(ent).is_some() { c.entity(ent).add_world_reactor::<E4>((tag, 0)); ret = None; } else { ret = Some(e4.add(&mut c, ent, (tag, 0))); } }
             }
         }
         WOp::ERemove(k, e, mask) =>
         {
             let keys: Vec<Key> = e_keys(k, e).into_iter().enumerate().filter(|(i, _)| mask & (1 << i) != 0).map(|(_, k)| k).collect();
             let b = resolve(&keys);
-            match k % 3
+            match k as usize % NE
             {
                 0 => { ret = Some(e1.remove(&mut c, b)); }
                 1 => { ret = Some(e2.remove(&mut c, b)); }
-                _ => { ret = Some(e3.remove(&mut c, b)); }
+                2 => { ret = Some(e3.remove(&mut c, b)); }
+                _ => { ret = Some(e4.remove(&mut c, b)); }
             }
         }
         WOp::ERemoveMany(k, list) =>
@@ -236,11 +246,12 @@ fn op_sys(
                 for (i, key) in e_keys(k, *e).into_iter().enumerate() { if mask & (1 << i) != 0 && keys.len() < 6 { keys.push(key); } }
             }
             let b = resolve(&keys);
-            match k % 3
+            match k as usize % NE
             {
                 0 => { ret = Some(e1.remove(&mut c, b)); }
                 1 => { ret = Some(e2.remove(&mut c, b)); }
-                _ => { ret = Some(e3.remove(&mut c, b)); }
+                2 => { ret = Some(e3.remove(&mut c, b)); }
+                _ => { ret = Some(e4.remove(&mut c, b)); }
             }
         }
         WOp::Mutate(e) => { if let Ok(v) = rm.get_mut(&mut c, pool_entity(e)) { v.0 = v.0.wrapping_add(1); } }
@@ -265,8 +276,8 @@ struct Model
     wd: [Vec<Key>; 2],
     w3_start: bool,
     w3_bcast: bool,
-    /// per entity reactor (0..3), per entity: registered keys and tag
-    er: [Vec<(Vec<Key>, u32)>; 3],
+    /// per entity reactor (0..NE), per entity: registered keys and tag
+    er: [Vec<(Vec<Key>, u32)>; NE],
     expected: Vec<WLog>,
     /// removal / despawn events waiting for the next poll
     pending: bool,
@@ -289,7 +300,7 @@ impl Model
         }
         if let Some(e) = ent
         {
-            for k in 0..3
+            for k in 0..NE
             {
                 let (keys, tag) = self.er[k][e as usize].clone();
                 let n = keys.iter().filter(|k| matches(k)).count();
@@ -303,7 +314,7 @@ impl Model
         self.alive[e as usize] = false;
         self.has_ca[e as usize] = false;
         for w in 0..2 { self.wd[w].retain(|k| k.entity() != Some(e) || matches!(k, Key::Despawn(_))); }
-        for k in 0..3 { self.er[k][e as usize] = (Vec::new(), 0); }
+        for k in 0..NE { self.er[k][e as usize] = (Vec::new(), 0); }
     }
 }
 
@@ -326,7 +337,7 @@ fn run_inner(case: &WCase, out: &mut WOutcome)
     app.insert_react_resource(RA(0));
     app.insert_react_resource(crate::universe::RB(0));
     app.add_world_reactor(WD::<0>).add_world_reactor(WD::<1>).add_world_reactor_with(W3, resource_mutation::<RA>());
-    app.add_entity_reactor(E1).add_entity_reactor(E2).add_entity_reactor(E3);
+    app.add_entity_reactor(E1).add_entity_reactor(E2).add_entity_reactor(E3).add_entity_reactor(E4);
     let world = app.world_mut();
     let pool: Vec<Entity> = (0..n).map(|_| world.spawn_empty().id()).collect();
     ST.with(|s| { let mut s = s.borrow_mut(); *s = St::default(); s.pool = pool.clone(); });
@@ -335,7 +346,7 @@ fn run_inner(case: &WCase, out: &mut WOutcome)
     world.react(|rc| { rc.on_persistent(removal::<CA>(), || {}); });
     let mut m = Model{
         alive: vec![true; n], has_ca: vec![false; n], wd: [Vec::new(), Vec::new()], w3_start: true, w3_bcast: false,
-        er: [vec![(Vec::new(), 0); n], vec![(Vec::new(), 0); n], vec![(Vec::new(), 0); n]],
+        er: [vec![(Vec::new(), 0); n], vec![(Vec::new(), 0); n], vec![(Vec::new(), 0); n], vec![(Vec::new(), 0); n]],
         expected: Vec::new(), pending: false, unpolled_scoped: Vec::new(), classes: BTreeMap::new(),
     };
     for (i, has) in case.with_ca.iter().enumerate()
@@ -399,7 +410,7 @@ fn run_inner(case: &WCase, out: &mut WOutcome)
             WOp::W3Remove(start) => { if *start { m.w3_start = false; } else { m.w3_bcast = false; } }
             WOp::EAdd(k, e, tag) =>
             {
-                let k = (*k % 3) as usize;
+                let k = *k as usize % NE;
                 *e = e8(*e);
                 let e = *e;
                 // re-adding is only generated after full removal (duplicate triggers are unspecified)
@@ -409,7 +420,7 @@ fn run_inner(case: &WCase, out: &mut WOutcome)
             }
             WOp::ERemove(k, e, mask) =>
             {
-                let k = (*k % 3) as usize;
+                let k = *k as usize % NE;
                 *e = e8(*e);
                 let e_ = *e;
                 *mask &= 3;
@@ -423,7 +434,7 @@ fn run_inner(case: &WCase, out: &mut WOutcome)
             }
             WOp::ERemoveMany(k, list) =>
             {
-                let k = (*k % 3) as usize;
+                let k = *k as usize % NE;
                 // distinct entities, at most three (six keys)
                 let mut seen: Vec<u8> = Vec::new();
                 let mut clean: Vec<(u8, u8)> = Vec::new();
@@ -564,8 +575,9 @@ fn run_inner(case: &WCase, out: &mut WOutcome)
                     verif_has_entity_world_local::<E1>(world, pool[e]),
                     verif_has_entity_world_local::<E2>(world, pool[e]),
                     verif_has_entity_world_local::<E3>(world, pool[e]),
+                    verif_has_entity_world_local::<E4>(world, pool[e]),
                 ];
-                for k in 0..3
+                for k in 0..NE
                 {
                     let want = m.alive[e] && !m.er[k][e].0.is_empty();
                     if has[k] != want
@@ -584,7 +596,7 @@ fn run_inner(case: &WCase, out: &mut WOutcome)
         }
         if !out.violations.is_empty() { break; }
     }
-    let multi = (0..3).any(|k| m.er[k].iter().filter(|x| !x.0.is_empty()).count() >= 2) || m.classes.get("C16:entity_added").copied().unwrap_or(0) >= 2;
+    let multi = (0..NE).any(|k| m.er[k].iter().filter(|x| !x.0.is_empty()).count() >= 2) || m.classes.get("C16:entity_added").copied().unwrap_or(0) >= 2;
     if multi && partial_removals >= 1 { m.hit("C16:two_entities_and_partial_removal"); }
     out.classes = m.classes;
     with_case(|c| *c = Case::default());
@@ -651,13 +663,13 @@ pub fn decode(bytes: &[u8], max_steps: usize) -> WCase
             5 => WOp::WRun(x % 3),
             6 => WOp::W3AddBroadcast,
             7 => WOp::W3Remove(x % 2 == 0),
-            8 | 9 | 10 | 11 => WOp::EAdd(x % 3, e, 100 + x as u32),
-            12 | 13 => WOp::ERemove(x % 3, e, 1 + (x / 3) % 3),
+            8 | 9 | 10 | 11 => WOp::EAdd(x % 4, e, 100 + x as u32),
+            12 | 13 => WOp::ERemove(x % 4, e, 1 + (x / 4) % 3),
             14 =>
             {
                 let cnt = 2 + below(byte(&mut u), 2);
                 let list = (0..cnt).map(|_| { let e = below(byte(&mut u), n as usize) as u8; let m = 1 + byte(&mut u) % 3; (e, m) }).collect();
-                WOp::ERemoveMany(x % 3, list)
+                WOp::ERemoveMany(x % 4, list)
             }
             15 | 16 | 17 | 18 => WOp::Mutate(e),
             19 | 20 | 21 => WOp::EntityEvent(e),
